@@ -16,6 +16,14 @@ def instances(tier):
             L.append(Inst("bilinear-%s-phase%04x-%04x" % (rp, fx, fy), "C08/pixel.c",
                           {"REPEAT": "PIXMAN_REPEAT_" + rp, "FILT": 1, "SW": 2, "SH": 3, "FRACX": fx, "FRACY": fy}, link=[], unwind=20, timeout=900,
                           desc={"what": "bits_image_fetch_pixel_bilinear_32 == 7-bit-weight blend of the four repeat-mapped neighbours; integer position and pixels symbolic, sub-pixel phase concrete"}))
+    for rp in (("NONE",) if tier == "quick" else REPEATS):
+        L.append(Inst("convolution-3x2-" + rp, "C08/conv.c", {"SEP": 0, "CW": 3, "CH": 2, "REPEAT": "PIXMAN_REPEAT_" + rp}, link=[], unwind=20, objbits=12, timeout=2400,
+                      desc={"what": "bits_image_fetch_pixel_convolution with a delta kernel (symbolic tap): output == texel rounding.txt puts under that tap; position and pixels symbolic"}))
+        L.append(Inst("separable-3x2-bits21-" + rp, "C08/conv.c", {"SEP": 1, "CW": 3, "CH": 2, "XB": 2, "YB": 1, "REPEAT": "PIXMAN_REPEAT_" + rp}, link=[], unwind=20, objbits=12, timeout=2400,
+                      desc={"what": "bits_image_fetch_pixel_separable_convolution with one symbolic tap per phase: phase row selection and alignment at the phase centre per rounding.txt"}))
+    if tier == "thorough":
+        L.append(Inst("convolution-4x3-NONE", "C08/conv.c", {"SEP": 0, "CW": 4, "CH": 3, "REPEAT": "PIXMAN_REPEAT_NONE"}, link=[], unwind=20, objbits=12, timeout=2400,
+                      desc={"what": "even/odd kernel sizes"}))
     combos = [(0, "NONE"), (1, "PAD"), (2, "NORMAL"), (3, "REFLECT"), (4, "PAD"), (5, "NONE"), (6, "NORMAL")]
     if tier == "thorough":
         combos = [(m, r) for m in range(7) for r in REPEATS]
@@ -30,10 +38,11 @@ TEXT = ("Bounded model checking of the real samplers against the rounding.txt re
         "bits_image_fetch_pixel_nearest (all repeat modes; sample position symbolic within +-8 pixels; source 1x1..3x2 with symbolic pixels) and "
         "bits_image_fetch_pixel_bilinear_32 (integer position symbolic, sub-pixel phase from a grid) with the real repeat() and "
         "bilinear_interpolation(); and, through pixman_image_composite32, that for a menu of scale / rotate / shear / projective transforms each "
-        "destination pixel equals the reference texel at the exactly (128-bit) computed position of its centre, whichever fetcher is selected.")
+        "destination pixel equals the reference texel at the exactly (128-bit) computed position of its centre, whichever fetcher is selected; "
+        "convolution and separable-convolution samplers with delta kernels (symbolic tap per phase) weigh exactly the texel rounding.txt places under each tap.")
 NOTE = ("Transforms at API level are concrete (menu of 7); bilinear weights concrete per instance (symbolic weights x symbolic pixels: no verdict "
-        "in 600 s); convolution / separable convolution kernels' alignment and SIMD fetchers are not covered.")
+        "in 600 s); general (non-delta) kernel weights, the specialised separable-convolution affine fetcher of pixman-fast-path.c and SIMD fetchers are not covered.")
 RULE = "C08 instance = sampler x repeat mode x (source size | phase) | API transform x repeat."
 BOUNDS = {"position": "+-8 pixels, all 16 fractional bits (nearest)", "source": "<= 3x2", "api": "3x2 destination"}
-OUTSIDE = ["convolution and separable-convolution filters", "symbolic transforms", "bilinear through the API", "SSE2/SSSE3 fetchers"]
+OUTSIDE = ["convolution with general kernel weights; bits_image_fetch_separable_convolution_affine (fast-path.c)", "symbolic transforms", "bilinear through the API", "SSE2/SSSE3 fetchers"]
 ASSUMPTIONS = ["texel reader replaced by a harness function over a symbolic pixel array in the unit instances"]
